@@ -125,6 +125,9 @@ class Likelihood:
         if rt != "float":
             # the same real number in the other types user code commonly returns
             ll = {"0d": np.array(ll), "np64": np.float64(ll), "ld": np.longdouble(ll), "vec-list": ll}[rt]
+        if self.mode == "blobview":
+            # the blob is the argument itself (a reference, not a copy): "return logl, x" / "return logl, x[:k]" in user code
+            return ll, x
         if self.mode == "blobs":
             return ll, float(i)
         if self.mode == "blobs2":
